@@ -24,9 +24,14 @@ generated for its attached node.
 -/
 import PolyplyVerif.Model.BuildFile
 import PolyplyVerif.Proofs.BuildFile
+import PolyplyVerif.Generated.ResSpecTables
+import PolyplyVerif.Model.BuildFileText
+import PolyplyVerif.Proofs.BuildFileText
+import PolyplyVerif.Model.BuildFileTextSizes
+import PolyplyVerif.Proofs.BuildFileTextSizes
 
 namespace PolyplyVerif.C18
-open PolyplyVerif.BuildFile PolyplyVerif.Proofs.BuildFile
+open PolyplyVerif.BuildFile PolyplyVerif.Proofs.BuildFile PolyplyVerif.Proofs.BuildFileText
 
 /-! ### build file: selection -/
 
@@ -197,6 +202,52 @@ example :
     specStart exampleMols [⟨some "L", some 0, some "RA", some 2⟩] = [none, none, none, none, none] := by
   decide
 
+/-- `-start` WITHOUT the consistency hypothesis of `C18_start_select_partial` — the exact content of the known
+shape `start-name-index-mismatch-accepted`: for every accepted list of specifications each molecule starts at
+the first residue matching the LAST specification that reaches it, where a specification that writes an index
+reaches exactly that molecule (its name is not looked at) and one without index every molecule of the name. -/
+theorem C18_start_follows_index (mols : List Mol) (specs : List Spec) (st : List (Option Nat))
+    (h : findStart mols specs = .ok st) : st = codeStart mols specs :=
+  start_code_exact mols specs st h
+
+example : codeStart exampleMols [⟨some "L", some 0, some "RA", some 2⟩] = [some 1, none, none, none, none] ∧
+    (findStart exampleMols [⟨some "L", some 0, some "RA", some 2⟩]).toOption = some [some 1, none, none, none, none] ∧
+    codeStart exampleMols [⟨some "A", none, none, some 2⟩] = [some 1, some 1, none, none, none] := by
+  decide
+
+/-- The literals of the option-string grammars in the CURRENT source (translated, `decide`) are the ones the
+model writes out: `parse_residue_spec` splits once at `-` (molecule part / residue part) and each part once at
+`#`; it returns the four fields; `_find_nodes` compares `resname` and `resid`; `-start` looks at `mol_idx`
+and `molname`; `-split` is `<resname>:<new>-<atom>,<atom>`. -/
+theorem C18_spec_literals :
+    ResSpecTables.specSplits = [('-', 1), ('#', 1), ('#', 1)] ∧
+    ResSpecTables.specKeys = ["mol_idx", "molname", "resid", "resname"] ∧
+    ResSpecTables.findNodesKeys = ["resname", "resid"] ∧ ResSpecTables.startKeys = ["mol_idx", "molname"] ∧
+    ResSpecTables.splitSeparators = [':', '-', ','] := by
+  refine ⟨by decide, by decide, by decide, by decide, by decide⟩
+
+/-- the model's reader is the one these literals describe: first `-`, then the first `#` of either part -/
+example : (parseSpec "A#x-C#2").toOption = none ∧
+    (parseSpec "A#1-C#2").toOption = some ⟨some "A", some 1, some "C", some 2⟩ ∧
+    (parseSpec "A#1-C-D#2").toOption = some ⟨some "A", some 1, some "C-D", some 2⟩ := by decide
+
+/-- Exact content of the shape `start-name-index-mismatch-accepted` on a single specification: when a molecule
+INDEX is written, the molecule NAME written next to it has no influence on `-start`, whatever the topology
+and the start dictionary so far. -/
+theorem C18_index_overrides_name (mols : List Mol) (sp : Spec) (i : Nat) (hidx : sp.molIdx = some i)
+    (st : List (Option Nat)) : startOne mols st sp = startOne mols st { sp with molname := none } := by
+  obtain ⟨mn, mi, rn, ri⟩ := sp
+  simp only at hidx
+  subst hidx
+  have hm : nodeMatches ⟨none, some i, rn, ri⟩ = nodeMatches ⟨mn, some i, rn, ri⟩ := by
+    funext v; simp [nodeMatches]
+  simp only [startOne, findNodes, hm]
+
+example : (startOne exampleMols [none, none, none, none, none] ⟨some "L", some 0, some "RA", some 2⟩).toOption =
+    (startOne exampleMols [none, none, none, none, none] ⟨none, some 0, some "RA", some 2⟩).toOption ∧
+    (startOne exampleMols [none, none, none, none, none] ⟨some "L", some 0, some "RA", some 2⟩).toOption =
+      some [some 1, none, none, none, none] := by decide
+
 /-! ### `-split` -/
 
 /-- No atom is lost and none duplicated: for every molecule, every list of split definitions that is
@@ -303,5 +354,294 @@ example :
     (exampleAttached.map fun r => (detachAll r.1 examplePos).1) = some exampleMols ∧
     (exampleAttached.map fun r => (detachAll r.1 examplePos).2) = some [((2, 0), "p"), ((3, 0), "q")] := by
   decide
+
+/-! ### the build file as TEXT (token level: `Model/BuildFileText.lean`)
+
+The theorems above start from parsed `Line`s.  The ones below close the gap to the text: the section table
+and the field order are read from the current source by the translator (`Generated/BuildFileTables.lean`),
+every directive the documented grammar writes is read back as exactly the record written, a line yields
+exactly one table entry, and the selection theorem holds for files given as text. -/
+
+section text
+open PolyplyVerif.BuildFileText PolyplyVerif.Proofs.BuildFileText
+
+/-- The documented sections of a build file and the parser each one is handed to (the decorators of
+`BuildDirector`, translated): geometry sections carry their own name as `geom_type`. -/
+def documentedSections : SecTable :=
+  [(["bending"], "_bending", []), (["molecule"], "_molecule", []),
+   (["molecule", "cylinder"], "_parse_geometry", [("geom_type", "cylinder")]),
+   (["molecule", "distance_restraints"], "_distance_restraints", []),
+   (["molecule", "persistence_length"], "_persistence_length", []),
+   (["molecule", "rectangle"], "_parse_geometry", [("geom_type", "rectangle")]),
+   (["molecule", "rw_restriction"], "_rw_restriction", []),
+   (["molecule", "sphere"], "_parse_geometry", [("geom_type", "sphere")]),
+   (["template"], "_template", []), (["template", "atoms"], "_template_atoms", []),
+   (["template", "bonds"], "_template_bonds", []), (["volumes"], "_volume", [])]
+
+/-- The literals of the CURRENT source are the documented ones (`decide` on translated tables): the section
+table; `;` starts a comment; a template is stored when `[ template ] / [ bonds ]` ends; the node attributes
+written are `restraints` (geometry) and `rw_options`; a geometry line is
+`<resname> <start> <stop> <in|out> <x> <y> <z> <parameters…>` and its `parameters` entry is
+`[in|out, point, parameters…, type]`. -/
+theorem C18_text_tables :
+    BuildFileTables.sectionParsers = documentedSections ∧ BuildFileTables.commentChar = ';' ∧
+    BuildFileTables.templateTrigger = ["template", "bonds"] ∧
+    BuildFileTables.tagKeywords = ["restraints", "rw_options"] ∧
+    (BuildFileTables.geomResname = 0 ∧ BuildFileTables.geomStart = 1 ∧ BuildFileTables.geomStop = 2 ∧
+      BuildFileTables.geomInOut = 3 ∧ BuildFileTables.geomPoint = (4, 5, 6) ∧ BuildFileTables.geomRest = 7) ∧
+    BuildFileTables.geomLayout = ["inout", "point", "rest", "type"] := by
+  refine ⟨by decide, by decide, by decide, by decide, by decide, by decide⟩
+
+/-- consequences for the section machine, on the translated table: no section is registered twice, every
+sub-section's parent is registered, the trigger section is parsed by `_template_bonds`, and every geometry
+section hands its own name to the parser -/
+theorem C18_text_sections_consistent :
+    ((BuildFileTables.sectionParsers.map (·.1)).Nodup) ∧
+    (∀ e ∈ BuildFileTables.sectionParsers, e.1.length ≤ 2 ∧
+      (e.1.length = 2 → known BuildFileTables.sectionParsers (e.1.take 1) = true)) ∧
+    (lookupSection BuildFileTables.sectionParsers BuildFileTables.templateTrigger).map (·.1) = some "_template_bonds" ∧
+    (∀ e ∈ BuildFileTables.sectionParsers, e.2.1 = "_parse_geometry" →
+      e.1.take 1 = ["molecule"] ∧ e.2.2 = [("geom_type", e.1.getLastD "")]) := by
+  refine ⟨by decide, by decide, by decide, by decide⟩
+
+example : enterSection BuildFileTables.sectionParsers ["molecule", "sphere"] "cylinder" = ["molecule", "cylinder"] ∧
+    enterSection BuildFileTables.sectionParsers ["molecule", "sphere"] "volumes" = ["volumes"] ∧
+    enterSection BuildFileTables.sectionParsers ["template", "bonds"] "atoms" = ["template", "atoms"] ∧
+    -- a geometry section outside `[ molecule ]` is not registered: its data lines are rejected
+    enterSection BuildFileTables.sectionParsers ["volumes"] "sphere" = ["sphere"] ∧
+    known BuildFileTables.sectionParsers ["sphere"] = false := by decide
+
+/-- `parse_header`, for every table and every current section: the new section is the LONGEST prefix of the
+current one under which the header is registered, followed by the header — the header alone when there is
+no such prefix. -/
+theorem C18_text_header (tbl : SecTable) (cur : List String) (h : String) :
+    ∃ n, n ≤ cur.length ∧ enterSection tbl cur h = cur.take n ++ [h] ∧
+      (0 < n → known tbl (cur.take n ++ [h]) = true) ∧
+      ∀ m, n < m → m ≤ cur.length → known tbl (cur.take m ++ [h]) = false := by
+  obtain ⟨k, hk1, hk2, hk3, hk4⟩ := resolveRev_spec tbl h cur.reverse
+  have hlen : cur.reverse.length = cur.length := List.length_reverse
+  have hdrop : ∀ j, (cur.reverse.drop j).reverse = cur.take (cur.length - j) := by
+    intro j; rw [List.drop_reverse, List.reverse_reverse]
+  refine ⟨cur.length - k, by omega, ?_, ?_, ?_⟩
+  · unfold enterSection; rw [hk2, hdrop]
+  · intro hpos; rw [← hdrop]; exact hk3 (by omega)
+  · intro m hm1 hm2
+    have := hk4 (cur.length - m) (by omega)
+    rw [hdrop] at this
+    have he : cur.length - (cur.length - m) = m := by omega
+    rwa [he] at this
+
+/-- Numerals: `int()` and `float()` read back every integer and every decimal literal
+`[-]digits[.digits*]` as the exact value written. -/
+theorem C18_text_numbers (z : Int) (d : Dec) (hd : d.wf) :
+    readInt (showInt z) = some z ∧ readFloat (showDec d) = some d.val :=
+  ⟨readInt_showInt z, readFloat_showDec d hd⟩
+
+example : showDec ⟨true, 12, some [0, 5]⟩ = "-12.05".toList ∧ (⟨true, 12, some [0, 5]⟩ : Dec).val = -241 / 20 ∧
+    readFloat "5.".toList = some 5 ∧ readFloat ".5".toList = some (1 / 2) ∧ readFloat "+3".toList = some 3 ∧
+    readInt "3.0".toList = none ∧ readFloat "1.2.3".toList = none ∧ readFloat ".".toList = none ∧
+    readInt "-07".toList = some (-7) := by
+  decide +kernel
+
+/-- `line.split()` gives back the tokens that were joined by blanks. -/
+theorem C18_text_tokens (toks : List Tok) (h : ∀ t ∈ toks, t ≠ [] ∧ ∀ c ∈ t, isSep c = false) :
+    splitWs (joinToks toks) = toks :=
+  splitWs_join toks h
+
+example : splitWs " RA\t1  3 in ".toList = ["RA".toList, "1".toList, "3".toList, "in".toList] := by decide
+
+/-- `parse (render d) = d` for EVERY directive: the parser registered for a record's section, applied to
+the tokens the documented line format writes, yields exactly the record written (all names, all numbers,
+any number of free parameters / coordinates, tolerance column present or absent). -/
+theorem C18_text_parse_render (s : Syn) (h : s.wf) : parseBy s.method.1 s.method.2 s.tokens = .ok s.sem :=
+  parse_tokens s h
+
+example :
+    let s : Syn := .geometry "cylinder" "RA".toList ⟨false, 1, none⟩ ⟨false, 4, some [0]⟩ "in".toList
+      ⟨false, 1, some [5]⟩ ⟨true, 2, none⟩ ⟨false, 0, some [2, 5]⟩ [⟨false, 3, none⟩, ⟨false, 0, some [5]⟩]
+    s.wf ∧ s.tokens.map String.ofList = ["RA", "1", "4.0", "in", "1.5", "-2", "0.25", "3", "0.5"] ∧
+    s.sem = .geometry ⟨"RA", 1, 4, "in", (3 / 2, -2, 1 / 4), [3, 1 / 2], "cylinder"⟩ := by
+  refine ⟨by decide, by decide, by decide +kernel⟩
+
+/-- the tolerance column of `[ distance_restraints ]` is read iff the line has exactly four columns -/
+example : (parseDist ["0".toList, "3".toList, "2.5".toList, "0.5".toList]).toOption = some (.dist ⟨0, 3, 5 / 2, 1 / 2⟩) ∧
+    (parseDist ["0".toList, "3".toList, "2.5".toList, "0.5".toList, "9".toList]).toOption = some (.dist ⟨0, 3, 5 / 2, 0⟩) ∧
+    (parseDist ["0".toList, "3".toList, "2.5".toList]).toOption = some (.dist ⟨0, 3, 5 / 2, 0⟩) ∧
+    (parseRw ["RA".toList, "1.0".toList, "3".toList, "1".toList, "0".toList, "0".toList, "30".toList]).toOption = none := by
+  decide +kernel
+
+/-- The same at TEXT level: in the section registered for its parser, the line written for a record
+(tokens joined by blanks) is read as exactly one event — that record — and nothing else changes.
+Hypotheses on the NAMES only (non-empty words without white space, `;`, `$`, not starting with `[`); numerals
+are arbitrary integers / decimal literals. -/
+theorem C18_text_line (tbl : SecTable) (st : PState) (s : Syn) (hwf : s.wf) (hn : ∀ t ∈ s.names, NameTok t)
+    (hsec : lookupSection tbl st.sec = some s.method) :
+    stepLine tbl st (joinToks s.tokens) = .ok { st with events := st.events ++ [.data s.sem] } :=
+  stepLine_data_names tbl st s hwf hn hsec
+
+example :
+    let s : Syn := .geometry "sphere" "RA".toList ⟨false, 2, none⟩ ⟨false, 4, some [0]⟩ "in".toList
+      ⟨false, 1, none⟩ ⟨true, 2, some [5]⟩ ⟨false, 3, none⟩ [⟨false, 5, none⟩]
+    String.ofList (joinToks s.tokens) = "RA 2 4.0 in 1 -2.5 3 5" ∧ s.wf ∧ (∀ t ∈ s.names, NameTok t) ∧
+    lookupSection BuildFileTables.sectionParsers ["molecule", "sphere"] = some s.method := by
+  refine ⟨by decide, by decide, ?_, by decide⟩
+  intro t ht
+  simp only [Syn.names, List.mem_cons, List.not_mem_nil, or_false] at ht
+  rcases ht with rfl | rfl <;> exact ⟨⟨by decide, by decide⟩, by intro cs h; simp at h⟩
+
+/-- One entry per line, with the documented fields and nothing else touched — for every block, every
+director state and every key `(name, idx)`:
+a geometry line appends exactly its own definition to the list of every `(name, idx)` the block addresses; -/
+theorem C18_text_geometry_one_entry (mols : List Mol) (b : Block) (dir dir' : Director) (d : ResDir)
+    (h : parseLine mols b dir (.geometry d) = .ok dir') (k : MKey) :
+    (lookup dir'.buildOptions k).getD [] =
+      (lookup dir.buildOptions k).getD [] ++ (if k.1 = b.name ∧ b.lo ≤ k.2 ∧ k.2 < b.hi then [d] else []) ∧
+    dir'.rwOptions = dir.rwOptions ∧ dir'.dist = dir.dist ∧ dir'.pers = dir.pers :=
+  geometry_one_entry mols b dir dir' d h k
+
+/-- a `[ rw_restriction ]` line ASSIGNS the single slot of every `(name, idx)` the block addresses (this is
+the exact content of the known shape `rw-restriction-last-line-wins`: whatever was there is replaced); -/
+theorem C18_text_rw_assigns (mols : List Mol) (b : Block) (dir dir' : Director) (d : ResDir)
+    (h : parseLine mols b dir (.rw d) = .ok dir') (k : MKey) :
+    lookup dir'.rwOptions k = (if k.1 = b.name ∧ b.lo ≤ k.2 ∧ k.2 < b.hi then some d else lookup dir.rwOptions k) ∧
+    dir'.buildOptions = dir.buildOptions ∧ dir'.dist = dir.dist ∧ dir'.pers = dir.pers :=
+  rw_one_entry mols b dir dir' d h k
+
+/-- a `[ persistence_length ]` line appends exactly one batch carrying the block's whole index list; -/
+theorem C18_text_pers_one_entry (mols : List Mol) (b : Block) (dir dir' : Director) (s e p : Nat)
+    (h : parseLine mols b dir (.pers s e p) = .ok dir') :
+    dir'.pers = dir.pers ++ [(s, e, p, arange b.lo b.hi)] ∧
+    dir'.buildOptions = dir.buildOptions ∧ dir'.rwOptions = dir.rwOptions ∧ dir'.dist = dir.dist :=
+  pers_one_entry mols b dir dir' s e p h
+
+/-- a `[ distance_restraints ]` line is ACCEPTED iff every index of the block's range is a molecule that
+contains both nodes (the node-existence errors), -/
+theorem C18_text_dist_ok_iff (mols : List Mol) (b : Block) (dir : Director) (a c p : Nat) :
+    (∃ dir', parseLine mols b dir (.dist a c p) = .ok dir') ↔
+      ∀ i, b.lo ≤ i → i < b.hi → ∃ m, mols[i]? = some m ∧ hasNode m a = true ∧ hasNode m c = true :=
+  dist_line_ok_iff mols b dir a c p
+
+/-- and then stores exactly the entry `(a, b) ↦ line` under every `(name, idx)` the block addresses — an
+earlier line for the same pair of nodes of the same molecule is REPLACED, every other entry is kept. -/
+theorem C18_text_dist_one_entry (mols : List Mol) (b : Block) (dir dir' : Director) (a c p : Nat)
+    (h : parseLine mols b dir (.dist a c p) = .ok dir') (k : MKey) (ab : Nat × Nat) :
+    lookup ((lookup dir'.dist k).getD []) ab =
+      (if (k.1 = b.name ∧ b.lo ≤ k.2 ∧ k.2 < b.hi) ∧ ab = (a, c) then some p else lookup ((lookup dir.dist k).getD []) ab) ∧
+    dir'.buildOptions = dir.buildOptions ∧ dir'.rwOptions = dir.rwOptions ∧ dir'.pers = dir.pers :=
+  dist_one_entry mols b dir dir' a c p h k ab
+
+example :
+    let mols : List Mol := [⟨"A", [⟨0, 1, "RA", none⟩, ⟨1, 2, "RA", none⟩]⟩, ⟨"A", [⟨0, 1, "RA", none⟩]⟩]
+    (parseLine mols ⟨"A", 0, 1, []⟩ {} (.dist 0 1 7)).toOption.map (·.dist) = some [(("A", 0), [((0, 1), 7)])] ∧
+    -- molecule 1 has no node 1: the line is rejected when the block reaches it
+    (parseLine mols ⟨"A", 0, 2, []⟩ {} (.dist 0 1 7)).toOption = none ∧
+    (parseLine mols ⟨"A", 0, 2, []⟩ {} (.geometry ⟨"RA", 1, 3, 5⟩)).toOption.map (·.buildOptions) =
+      some [(("A", 0), [⟨"RA", 1, 3, 5⟩]), (("A", 1), [⟨"RA", 1, 3, 5⟩])] := by
+  decide
+
+/-- The selection theorem for files given as TEXT: whenever the build file is accepted, the `restraints`
+attribute of every node of every molecule is — in file order — the list of the geometry lines whose
+`[ molecule ]` block names the molecule and whose residue name / half-open resid range selects the node
+(`specRestraints` on the blocks the text denotes; payload = position of the line's record in the file). -/
+theorem C18_text_select (mols : List Mol) (lines : List (List Char)) (p : Parsed)
+    (h : readBuildFile mols lines = .ok p) (i : Nat) (v : ResNode) :
+    restraintsOf p.dir mols i v = specRestraints p.blocks mols i v := by
+  have hdir : parseBlocks mols p.blocks = .ok p.dir := by
+    unfold readBuildFile readBuildFileWith at h
+    obtain ⟨evs, _, h⟩ := bind_ok _ _ _ h
+    obtain ⟨templates, _, h⟩ := bind_ok _ _ _ h
+    obtain ⟨blocks, _, h⟩ := bind_ok _ _ _ h
+    obtain ⟨dir, hd, h⟩ := bind_ok _ _ _ h
+    simp only [pure, Except.pure, Except.ok.injEq] at h
+    subst h
+    exact hd
+  exact C18_select_exact mols p.blocks p.dir hdir i v
+
+/-- non-vacuity, from the text to the node: block `A 1 3`, sphere `RA 2 4` (compare the example of
+`C18_select_exact`); the in/out token, the point and the type end up in the documented places -/
+example :
+    let mols : List Mol := [⟨"A", [⟨0, 2, "RA", none⟩]⟩, ⟨"A", [⟨0, 1, "RA", none⟩, ⟨1, 2, "RA", none⟩, ⟨2, 3, "RB", none⟩, ⟨3, 4, "RA", none⟩]⟩,
+                            ⟨"B", [⟨0, 2, "RA", none⟩]⟩, ⟨"A", [⟨0, 3, "RA", none⟩]⟩]
+    let text := ["; which residues go where", "[ molecule ]", "A 1 3", "[ Sphere ] ; comment", " RA  2 4.0 in 1 2 3 5"].map String.toList
+    (readBuildFile mols text).toOption.map (fun p => ((annotate p.dir mols).map (·.restraints), p.blocks.map (·.lines))) =
+      some ([[], [], [1], [], [], [], []], [[.geometry ⟨"RA", 2, 4, 1⟩]]) ∧
+    (readBuildFile mols text).toOption.bind (fun p => p.geomOf 1) = some ⟨"RA", 2, 4, "in", (1, 2, 3), [5], "sphere"⟩ := by
+  decide +kernel
+
+/-- EXACT content of the distance-restraint table (sharpens `C18_dist_sound`): after an accepted build file,
+under `(name, idx)` and the node pair `(a, b)` stands the LAST `[ distance_restraints ]` line written for that
+pair in a block called `name` whose range contains `idx`; nothing else is stored. -/
+theorem C18_dist_last_line (mols : List Mol) (blocks : List Block) (dir : Director)
+    (h : parseBlocks mols blocks = .ok dir) (k : MKey) (ab : Nat × Nat) :
+    lookup ((lookup dir.dist k).getD []) ab = lastFor (distEvents blocks) k ab :=
+  parseBlocks_dist_last mols blocks dir h k ab
+
+/-- … hence the restraints `set_restraints` applies to molecule `i` are exactly the last-written lines of the
+blocks whose RANGE contains `i` — under whatever name (the known shape `dist-restraint-by-index-ignores-name`,
+as an iff). -/
+theorem C18_dist_applied_iff (mols : List Mol) (blocks : List Block) (dir : Director)
+    (h : parseBlocks mols blocks = .ok dir) (i a c p : Nat) :
+    (i, a, c, p) ∈ distApplied dir ↔ ∃ name, lastFor (distEvents blocks) (name, i) (a, c) = some p :=
+  distApplied_iff mols blocks dir h i a c p
+
+example :
+    let mols : List Mol := [⟨"A", [⟨0, 1, "RA", none⟩, ⟨1, 2, "RA", none⟩]⟩]
+    let blocks : List Block := [⟨"A", 0, 1, [.dist 0 1 5, .dist 1 0 6, .dist 0 1 7]⟩]
+    (parseBlocks mols blocks).toOption.map distApplied = some [(0, 0, 1, 7), (0, 1, 0, 6)] ∧
+    lastFor (distEvents blocks) ("A", 0) (0, 1) = some 7 ∧ lastFor (distEvents blocks) ("B", 0) (0, 1) = none := by
+  decide
+
+/-- `[ volumes ]` at text level: the size stored for a residue name is the value of the LAST line written for
+it (user sizes are taken as written). -/
+theorem C18_text_volumes_last (evs : List Event) (r : String) :
+    lookup (volumesOf evs) r = (((volumeEvents evs).filter (fun e => decide (e.1 = r))).map (·.2)).getLast? :=
+  volumesOf_lookup evs r
+
+example : volumesOf [.data (.volume "RA" (1 / 2)), .data (.volume "RB" 1), .data (.volume "RA" (3 / 4))] =
+    [("RA", 3 / 4), ("RB", 1)] := by decide +kernel
+
+/-- `[ template ]` at text level: a complete block (`resname <name>`, atom lines, bond lines, end of the
+`[ bonds ]` section) stores exactly ONE template with the residue name, the atoms (in order; a repeated
+atom name keeps its place and takes the later line — with pairwise different names: exactly the lines
+written) and the bonds written. -/
+theorem C18_text_template_block (st : TState) (name : String) (atoms : List TAtom) (bonds : List (String × String))
+    (hok : templateOk ⟨name, atoms.foldl setAtom [], bonds⟩ = true) :
+    (templateBlockEvents name atoms bonds).foldlM templateStep st =
+      .ok { cur := none, done := st.done ++ [⟨name, atoms.foldl setAtom [], bonds⟩] } ∧
+    ((atoms.map (·.name)).Nodup → atoms.foldl setAtom [] = atoms) :=
+  ⟨template_block st name atoms bonds hok, template_block_distinct atoms⟩
+
+example : templateOk ⟨"RQ", [⟨"X", "P", [0, 0, 0]⟩, ⟨"Y", "P", [1 / 2, 0, 0]⟩], [("X", "Y")]⟩ = true := by decide +kernel
+
+/-- What the code does with a template block that never reaches `[ bonds ]` (known finding of C15,
+`template-without-bonds-ignored`, stated about the model): whatever lines are read, as long as no
+`[ bonds ]` section ends, no template is stored. -/
+theorem C18_text_template_needs_bonds (evs : List Event) (st st' : TState) (hne : ∀ e ∈ evs, e ≠ .endTemplate)
+    (h : evs.foldlM templateStep st = .ok st') : st'.done = st.done :=
+  template_without_bonds_dropped evs st st' hne h
+
+example : (([.data (.templateHead "RQ"), .data (.templateAtom "X" "P" [0, 0, 0])] : List Event).foldlM templateStep {}).toOption.map (·.done) =
+    some [] := by decide +kernel
+
+/-- The hand-over to C15's precedence model (`Templ.readBuildFile`): the events it is fed from a build file
+given as text are EXACTLY the `[ volumes ]` lines (in order, values as written) and the finished templates
+(in order; residue name and positions as written — hash and `compute_volume` are the oracle's), nothing else. -/
+theorem C18_text_sizes_ops (oracle : List (String × Rat)) (evs : List Event) (ops : List (Templ.BfOp Rat))
+    (ts : List TemplateDef) (h : bfOpsOf oracle evs = .ok ops) (ht : templatesOf evs = .ok ts)
+    (hlen : ts.length ≤ oracle.length) :
+    ops.filterMap volPart = volumeEvents evs ∧ ops.filterMap tplPart = (ts.zip oracle).map mkTpl :=
+  bfOps_exact oracle evs ops ts h ht hlen
+
+example :
+    let text := ["[ volumes ]", "RA 0.5", "[ template ]", "resname RQ", "[ atoms ]", "X P 0 0 0", "Y P 0.5 0 0",
+                 "[ bonds ]", "X Y", "[ volumes ]", "RQ 2"].map String.toList
+    (sizesOfText BuildFileTables.sectionParsers [] [("h1", 5 / 4)] text).toOption.map (·.1) =
+      some [("RA", 1 / 2), ("h1", 2), ("RQ", 2)] ∧
+    (sizesOfText BuildFileTables.sectionParsers [] [("h1", 5 / 4)] text).toOption.map
+        (fun r => r.2.flatMap fun ht => ht.2.map fun np => (ht.1, np.1, [np.2.x, np.2.y, np.2.z])) =
+      some [("h1", "X", [-1 / 4, 0, 0]), ("h1", "Y", [1 / 4, 0, 0])] := by
+  decide +kernel
+
+end text
 
 end PolyplyVerif.C18
